@@ -84,7 +84,11 @@ fn parse_an_b(input: &str) -> Result<FunctionalPosition, NthChildError> {
       Num(has_n) => match c {
         '+' | '-' => return Err(NthChildError::InvalidSyntax),
         '0'..='9' => {
-          num = num * 10 + (c as u8 - b'0') as i32;
+          // a number that does not fit in i32 is a syntax error, not an overflow
+          num = num
+            .checked_mul(10)
+            .and_then(|n| n.checked_add((c as u8 - b'0') as i32))
+            .ok_or(NthChildError::InvalidSyntax)?;
         }
         'n' | 'N' => {
           if has_n {
@@ -123,7 +127,7 @@ impl NthChildSimple {
     match self {
       NthChildSimple::Numeric(n) => Ok(FunctionalPosition {
         step_size: 0,
-        offset: *n as i32,
+        offset: i32::try_from(*n).map_err(|_| NthChildError::InvalidSyntax)?,
       }),
       NthChildSimple::Functional(s) => parse_an_b(s),
     }
@@ -159,10 +163,11 @@ struct FunctionalPosition {
 impl FunctionalPosition {
   /// index is 0-based, but output is 1-based
   fn is_matched(&self, index: usize) -> bool {
-    let index = (index + 1) as i32; // Convert 0-based index to 1-based
-    let FunctionalPosition { step_size, offset } = self;
-    if *step_size == 0 {
-      index == *offset
+    // computed in i64: `index - offset` and `n / step_size` can leave the i32 range
+    let index = index as i64 + 1; // Convert 0-based index to 1-based
+    let (step_size, offset) = (self.step_size as i64, self.offset as i64);
+    if step_size == 0 {
+      index == offset
     } else {
       let n = index - offset;
       n / step_size >= 0 && n % step_size == 0
